@@ -37,6 +37,15 @@ def run(E: Engine, rep: Report, tier: str) -> dict:
     rep.check(any(r.endswith(".rise_time") for r in v.roots) and any("in_eom_mode()" in r for r in v.roots) and "Mult" in v.tags and "const:2" in v.roots and "max" in v.tags, "FLOW", "phase_jump_buffer|2*rise_time-in-eom", "max(phase_jump_time, 2*rise_time*in_eom_mode)", "in EOM mode the buffer no longer enforces at least 2*rise_time", where)
     rep.check(any(r.endswith(".fall_time()") for r in v.roots) and "Add" in v.tags, "FLOW", "phase_jump_buffer|plus-fall_time", "the last pulse's fall time is added", "the buffer no longer adds the last pulse's fall time", where)
     rep.check("Sub" in v.tags and any(r.endswith("last_pulse_slot().tf") for r in v.roots) and "self.tf" in v.roots, "FLOW", "phase_jump_buffer|minus-elapsed", "minus the time already elapsed since the last pulse (t0 - last_pulse_slot.tf)", "the time already elapsed since the last pulse is no longer subtracted from the buffer", where)
+    # the elapsed time is measured from the channel's current end t0 (= last.tf), not from a later, already delayed, time
+    if isinstance(buf.value, ast.BinOp) and isinstance(buf.value.op, ast.Sub):
+        el = ab.av(buf.value.right)
+        from .common import strip_prefixes as _sp
+
+        er = _sp(el.roots)
+        polluted = sorted(r for r in er if "phase_barrier_ts" in r or "_find_add_delay" in r or r in ("protocol",)) + (["max"] if "max" in el.tags else [])
+        rep.check(not polluted and "self.tf" in er and any(r.endswith("last_pulse_slot().tf") for r in er), "FLOW", "phase_jump_buffer|elapsed-from-channel-end", "elapsed = t0 - last_pulse_slot.tf with t0 the channel's current end",
+                  f"the elapsed time subtracted from the buffer is not measured from the channel's current end: it also depends on {polluted} -- time the pulse still has to wait for other reasons would be deducted from the phase-jump buffer", where)
     # structure: (max(...) + fall) - (t0 - last_pulse_slot.tf)
     top = buf.value
     ok = isinstance(top, ast.BinOp) and isinstance(top.op, ast.Sub) and isinstance(top.left, ast.BinOp) and isinstance(top.left.op, ast.Add)
@@ -89,6 +98,8 @@ def run(E: Engine, rep: Report, tier: str) -> dict:
             ok = norm(n.value).replace(" ", "") in ("ti-self[channel].last_target()",)
     rep.check(ok, "FLOW", "add_target|elapsed=ti-last_target", "elapsed measured from the end of the previous target instruction", "elapsed is no longer ti - last_target()", E.where(at))
     rep.floor("FLOW", 14)
+    # the look-back of the at-rest duration covers the longest possible ramp-down (2*rise_time), like the conflict scan does
+    _lookback(E, rep)
     # -------------------------------------------------------------- GUARD
     pj = [f for f in E.cls(CH).methods["phase_jump_time"] if f.kind == "property"][0]
     ok = False
@@ -104,5 +115,28 @@ def run(E: Engine, rep: Report, tier: str) -> dict:
     rt = [f for f in E.cls(CH).methods["rise_time"] if f.kind == "property"][0]
     vs = [av(E, rt, r.value) for r in returns(rt)]
     rep.check(any("self.mod_bandwidth" in v.roots and "Div" in v.tags for v in vs), "GUARD", "Channel.rise_time|from-mod_bandwidth", "rise time = MODBW_TO_TR / mod_bandwidth", "rise_time no longer derives from mod_bandwidth", E.where(rt))
-    rep.floor("GUARD", 2)
+    rep.floor("GUARD", 4)
     return {}
+
+
+def _lookback(E: Engine, rep: Report) -> None:
+    from .common import linear_factor
+
+    gd = E.method(CHS, "get_duration")
+    fad = E.method(SCHED, "_find_add_delay")
+    facs = {}
+    for f, label in ((gd, "get_duration"), (fad, "_find_add_delay")):
+        for n in ast.walk(f.node):
+            if isinstance(n, ast.Compare):
+                for side in [n.left] + list(n.comparators):
+                    for sub in ast.walk(side):
+                        if isinstance(sub, ast.BinOp) and isinstance(sub.op, ast.Mult) and "rise_time" in norm(sub):
+                            k, rest = linear_factor(sub)
+                            if len(rest) == 1 and rest[0].endswith("rise_time"):
+                                facs.setdefault(label, set()).add(k)
+                        elif isinstance(sub, ast.Attribute) and sub.attr == "rise_time" and not any(isinstance(p, ast.BinOp) and isinstance(p.op, ast.Mult) and any(x is sub for x in ast.walk(p)) for p in ast.walk(side)):
+                            facs.setdefault(label, set()).add(1)
+    rep.check(facs.get("get_duration") == {2}, "GUARD", "_ChannelSchedule.get_duration|lookback=2*rise_time", "the backwards scan for a pending fall time stops only after 2*rise_time of idle time (the longest possible fall time)",
+              f"the at-rest look-back threshold is {sorted(facs.get('get_duration', []))} x rise_time: a pulse whose fall time (up to 2*rise_time) is still pending would be missed behind short delays", E.where(gd))
+    rep.check(facs.get("_find_add_delay") == {2}, "GUARD", "_Schedule._find_add_delay|lookback=2*rise_time", "the conflict scan looks 2*rise_time behind non-pulse slots",
+              f"the conflict scan threshold is {sorted(facs.get('_find_add_delay', []))} x rise_time", E.where(fad))
